@@ -36,13 +36,19 @@ Definition attraw : mime :=
                 (S_ "plain words only")).
 Definition m_first : msg := mk_msg H0 (Multipart (S_ "mixed") [txt; att64]).
 Definition m_second : msg := mk_msg H0 (Multipart (S_ "mixed") [txt; attraw]).
-Definition bs_after_first : blobs := fst (store hid [] m_first).
+Definition bs_after_first : blobs := fst (store hid [] [] m_first).
 
 Lemma dedup_witness_ok :
   wf_msg m_second = true
-  /\ spec_ok m_second (roundtrip hid bs_after_first m_second []) = true
-  /\ omsg_eqb (roundtrip hid bs_after_first m_second []) (roundtrip hid [] m_second []) = true.
+  /\ spec_ok m_second (roundtrip hid [] bs_after_first m_second []) = true
+  /\ omsg_eqb (roundtrip hid [] bs_after_first m_second []) (roundtrip hid [] [] m_second []) = true
+  /\ omsg_eqb (roundtrip hid [true; true] bs_after_first m_second []) (roundtrip hid [] [] m_second []) = true.
 Proof. vm_compute. repeat split; reflexivity. Qed.
+
+(** with every blob write failing nothing reaches the blob table, and the message still comes back *)
+Lemma faulty_store_example :
+  fst (store hid [true; true] [] m_first) = [] /\ spec_ok m_first (roundtrip hid [true; true] [] m_first []) = true.
+Proof. vm_compute. split; reflexivity. Qed.
 
 Definition m_deep : msg :=
   mk_msg (H0 ++ [(S_ "MIME-Version", S_ " 1.0")])
